@@ -226,6 +226,11 @@ func Theme(name string) []Decl {
 			out = append(out, d)
 		}
 	}
+	if name == "bounds" {
+		// bound pairs with no integer between them: whether they are empty
+		// depends on the kind, which may arrive later through a reference
+		out = append(out, f("a", "", t(">1"), t("<2")), in("a", "<2"), in("a", ">1.5"), in("a", "<1.7"), f("a", "b", t(">1"), t("<2"), t("b")))
+	}
 	return out
 }
 
